@@ -51,6 +51,11 @@ def histories(tier):
                 continue
             for ns in itertools.product((1, 2), repeat=d):
                 out.append(list(zip(tup, ns)))
+    if tier == "thorough":
+        # depth 4 with one solve per block (a hidden field that needs three earlier blocks to reach its bad value)
+        for tup in itertools.product(range(nt), repeat=4):
+            if len(set(tup)) >= 2:
+                out.append([(t, 1) for t in tup])
     # solve-without-setup after an option change that does not need a new setup (negative count = no setup())
     for a, bs in NOSETUP.items():
         for b in bs:
@@ -89,6 +94,16 @@ def main(tier):
     for i, h in enumerate(hs):
         lines.append(("h%05d" % i, gl.line_of("h%05d" % i, base, hist=",".join("%d:%d" % (t, n) for t, n in h))))
     res = gl.run_cases(binary, lines, chunk=8)
+    # reference observation of each tuple: a process that has handled nothing but that tuple (one line, one process)
+    nt_used = sorted({t for h in hs for t, _ in h})
+    canon_lines = [("k%02d" % t, gl.line_of("k%02d" % t, base, hist="%d:1" % t)) for t in nt_used]
+    canon_res = gl.run_cases(binary, canon_lines, chunk=1)
+    canon = {}
+    for t in nt_used:
+        fo = canon_res.get("k%02d" % t, {}).get("freshobs", "")
+        if fo.startswith("t%d:" % t):
+            canon[t] = fo.split(":", 1)[1]
+    fresh_compared = 0
     states, transitions = set(), 0
     for i, h in enumerate(hs):
         r = res.get("h%05d" % i, {"status": "crash", "kind": "missing"})
@@ -104,6 +119,17 @@ def main(tier):
         for st in r.get("trace", "").split("|"):
             if st:
                 states.add(st)
+        for part in r.get("freshobs", "").split("/"):
+            if ":" not in part:
+                continue
+            tt, obs = part.split(":", 1)
+            t = int(tt[1:])
+            if t in canon:
+                fresh_compared += 1
+                if obs != canon[t]:
+                    rep.violation("process-history:t%d" % t, "history [%s]: a FRESHLY constructed solver with options t%d gives (%s) in this "
+                                  "process, but (%s) in a process that handled nothing else: process-global state leaks between solver "
+                                  "objects" % (hist_s, t, obs, canon[t]), {"history": hist_s, "tuples": TUPLES, "kind": "process", "tuple": t})
         if int(r["bad"]) >= 0:
             w = r["what"]
             rep.violation(key_of(h, w), "history [%s] (blocks tuple:solves; tuples %s): a solve on the reused object differs from a "
@@ -113,10 +139,12 @@ def main(tier):
         "states": len(states) * (11 if tier == "thorough" else 9),
         "transitions": transitions,
         "traces_validated_against_impl": len(hs),
+        "fresh_object_observations_compared_with_fresh_process": fresh_compared,
         "evaluations": len(hs),
         "distinct_nontrivial": len(hs),
         "distinct_hidden_states": sorted(states)[:12],
-        "rule": "all histories of <= %d blocks (option tuple, setup, 1 or 2 solves) over %d option tuples on one object "
+        "rule": "all histories of <= %d blocks (option tuple, setup, 1 or 2 solves) over %d option tuples on one object; thorough "
+                "adds all 4-block histories with one solve per block "
                 "(17x32 / 33x64, Shafranov, PolarR6, Zoni gyro), plus histories in which solve-time options (cycle type, smoothing "
                 "steps, iteration limit, norm type, tolerances, FMG cycle) are changed and solve() is called WITHOUT a new setup(); "
                 "after EVERY solve the observation (solution bitwise, iterations, "
@@ -134,6 +162,23 @@ def replay(path):
     rp = json.load(open(path))["replay"]
     binary = _build()
     base = base_line()
+    if rp.get("kind") == "process":
+        t = rp["tuple"]
+        outs = []
+        for _ in range(2):
+            a = gl.run_cases(binary, [("r0", gl.line_of("r0", base, hist=rp["history"]))]).get("r0", {}).get("freshobs", "")
+            b = gl.run_cases(binary, [("r1", gl.line_of("r1", base, hist="%d:1" % t))]).get("r1", {}).get("freshobs", "")
+            got = [p.split(":", 1)[1] for p in a.split("/") if p.startswith("t%d:" % t)]
+            outs.append((got, b.split(":", 1)[1] if ":" in b else None))
+        if outs[0] != outs[1]:
+            print("replay is not deterministic; refusing to report")
+            return 2
+        print(outs[0])
+        if not outs[0][0] or outs[0][0][0] != outs[0][1]:
+            print("VIOLATION property=%s replay=%s" % (PID, path))
+            return 1
+        print("replay: property held")
+        return 0
     outs = []
     for _ in range(2):
         res = gl.run_cases(binary, [("r0", gl.line_of("r0", base, hist=rp["history"]))])
